@@ -13,6 +13,10 @@ import (
 var itemSep string
 var kvSep string
 
+// paramNameChars holds every character used by the fixed parameter names and flags below
+// ("S", "V", "a", "b", "c", "sp", "dif", ...): a separator may not be one of them either.
+const paramNameChars = "SVabcdfilmprs"
+
 const (
 	fuseGlobalsEnvVar  = "dm_fuse_opts"
 	bundleEnvVarPrefix = "dm_fuse_bd_"
@@ -290,7 +294,7 @@ func setSeparators(paramsStruct interface{}) error {
 	if err != nil {
 		return err
 	}
-	invalidSeps, err := mergeAndUniqifyRunes(stringVals...)
+	invalidSeps, err := mergeAndUniqifyRunes(append(stringVals, paramNameChars)...)
 	if err != nil {
 		return err
 	}
